@@ -320,6 +320,43 @@ def make_decoder(decs, register=False, data_width=8, adr_width=2, **kw):
                     masters, slaves, decs, lean_open, register=register, **kw)
 
 
+def make_socbus(n, regions, interconnect="shared", register=True, timeout=1e6, data_width=32, address_width=32,
+                extra_first=None, **kw):
+    """End-to-end: a REAL `SoCBusHandler` (litex/soc/integration/soc.py) with `n` masters and one slave per
+    `(origin, size)` in `regions`, finalized, so that `do_finalize` itself picks InterconnectPointToPoint /
+    InterconnectShared / Crossbar and builds the decoders from the SoCRegions.  `extra_first=(origin, size)`
+    registers a slave-less (linker) region before the slaves (it must not influence the selection).  The Lean side (`open socbus …`) makes the same
+    selection with `busTopology`; the monitor's address map is the specification (inside [origin, origin+size_pow2))."""
+    from litex.soc.integration import soc as S
+    bus = S.SoCBusHandler(standard="wishbone", data_width=data_width, address_width=address_width,
+                          timeout=timeout, interconnect=interconnect, interconnect_register=register)
+    if extra_first is not None:
+        bus.add_region("extra", S.SoCRegion(origin=extra_first[0], size=extra_first[1], linker=True))
+    adr_width = address_width - ((data_width // 8).bit_length() - 1)
+    masters, slaves = _ifaces(n, data_width, adr_width), _ifaces(len(regions), data_width, adr_width)
+    for i, mst in enumerate(masters):
+        bus.add_master("m%d" % i, mst)
+    for j, (slv, (o, sz)) in enumerate(zip(slaves, regions)):
+        bus.add_slave("s%d" % j, slv, S.SoCRegion(origin=o, size=sz))
+    bus.finalize()
+    ic = bus._interconnect
+    kind = {"InterconnectPointToPoint": "p2p", "InterconnectShared": "shared", "Crossbar": "xbar"}.get(
+        type(ic).__name__, "none")
+    decs = [DecRegion(o, sz) for (o, sz) in regions]
+    err = ic.timeout.error if (kind == "shared" and hasattr(ic, "timeout")) else None
+    lean_open = "socbus %d %s %d %s %d %d %s" % (
+        n, interconnect, int(register), "none" if timeout is None else int(timeout), data_width, address_width,
+        " ".join("%d:%d" % r for r in regions))
+    name = kw.pop("name", "SoCBusHandler %dx%d %s [%s]%s" % (
+        n, len(regions), interconnect, " ".join("%#x+%#x" % r for r in regions),
+        " extra@%#x" % extra_first[0] if extra_first else ""))
+    inst = WbFabric(name, kind if kind != "none" else "shared", bus, masters, slaves, decs, lean_open,
+                    register=register and kind != "p2p", timeout=(int(timeout) if (err is not None) else None),
+                    error_sig=err, bus=masters[0], **kw)
+    inst.topology = {"xbar": "crossbar"}.get(kind, kind)      # as named by the Lean model
+    return inst
+
+
 def make_p2p(data_width=8, adr_width=2, **kw):
     masters, slaves = _ifaces(1, data_width, adr_width), _ifaces(1, data_width, adr_width)
     mod = wishbone.InterconnectPointToPoint(masters[0], slaves[0])
@@ -472,6 +509,8 @@ class FabricMonitor:
       R5 (ownership) the owner of a slave/bus changes only when the previous owner does not request it any more.
       R6 (wait)      while a master keeps requesting a slave/bus, ownership changes at most n-1 times before it
                      becomes the owner.
+      R8 (timeout)   the timeout fires (`error`) only after `timeout` consecutive cycles in which the bus owner
+                     drove cyc & stb and saw no ack (never early; the timing itself is C11's property).
       R7 (one term.) in a cycle in which every slave answers only a presented strobe: the number of masters that see
                      a termination equals the number of slaves answering (plus one if the timeout fired), and no
                      master sees a termination without driving cyc & stb.
@@ -487,6 +526,7 @@ class FabricMonitor:
         self.prev_req = [[False] * self.n for _ in range(nres)]
         self.waitchg = [[0] * self.n for _ in range(nres)]   # ownership changes seen while master i kept requesting
         self.prev_sel = [None] * self.n        # (xbar: per master / shared: index 0) slave selected in the previous cycle
+        self.waitrun = 0                       # consecutive preceding cycles the bus owner waited (None = unknown)
         self.t = 0
 
     def _requests(self, ms, res):
@@ -542,6 +582,17 @@ class FabricMonitor:
         timeout_fired = bool(error)
         if timeout_fired and inst.timeout is None:
             return "R3: error flag without a timeout module"
+        # ---- R8: the timeout never fires early ---------------------------------------------------------------
+        if inst.timeout is not None and bus_cand is not None:
+            if timeout_fired and self.waitrun is not None and self.waitrun < inst.timeout:
+                return "R8: timeout fired after only %d consecutive waiting cycle(s) (configured %d)" % (
+                    self.waitrun, inst.timeout)
+            if len(bus_cand) == 1:
+                o = bus_cand[0]
+                waiting = ms[o][0] and ms[o][1] and not to_m[o][0]
+                self.waitrun = (self.waitrun + 1 if self.waitrun is not None else None) if waiting else 0
+            else:
+                self.waitrun = None
         for i in range(n):
             ack, err, dat = to_m[i]
             if not (ack or err):
